@@ -243,7 +243,8 @@ Hello(s, ser, fl, new) ==
         /\ everNames' = everNames \cup {new}
         /\ LET W == World(cst', uname', queue, rules, mon)
                call2 == [call EXCEPT !.snd = new] IN
-           out' = Capture(Now, call, s, NoSlot)
+           \* (monitors get the very message object the driver later re-stamps with the new name)
+           out' = Capture(Now, call2, s, NoSlot)
                   \o FromBus(W, s, Reply(new, ser, SigS, <<AStr(new)>>, "exact"))
                   \o OwnerChange(W, new, NoSlot, s)
                   \o EavesCopies(W, s, call2, NoSlot)
